@@ -1681,6 +1681,7 @@ def _interp1d(tr, node, args, kwargs):
         mode = f"(Interp.Fill {fv.items[0].t} {fv.items[1].t})"
     else:
         fail(node, "interp1d fill_value / bounds_error combination")
+    tr.mod.uses_interp = True
     return Ip(args[0].t, args[1].t, mode)
 
 
